@@ -24,8 +24,13 @@ TOL = c07.TOL
 
 def call_period(c):
     """number of distinct point sets / batches a training condition cycles through (1 = call-invariant)"""
-    if c["kind"] in ("pinn", "mean", "ritz", "single", "hpm_sampler", "integro") and not c.get("static") and not c.get("lib_sampler"):
-        return len(c["sets"])
+    if c["kind"] in ("pinn", "mean", "ritz", "single", "hpm_sampler", "integro", "periodic") and not c.get("lib_sampler"):
+        sets = c.get("np_sets") if c["kind"] == "periodic" else c["sets"]
+        if not sets:
+            return 1
+        if c.get("static"):
+            return c["static_interval"] * len(sets) if c.get("static_interval") else 1
+        return len(sets)
     if c["kind"] == "deeponet_data":
         # DeepONetDataset.__len__: one joint batch index, lcm of the two wrap-around periods
         return math.lcm(c["nf"] // math.gcd(c["nf"], c["bB"]), c["nt"] // math.gcd(c["nt"], c["bT"]))
